@@ -42,3 +42,8 @@ def run(chk, repo):
         check_adapter(chk, "C03-T4", repo, L.ev, key)
     from ..shapes_rules import link_tables
     link_tables(chk, repo, L, "C03")
+    # T5: header attributes present exactly when the field is non-blank (sentinel agreement, shared with C20-P2/P4)
+    from .c20 import header_sentinels
+    chk.rule("C20-P2", "C03-T5: header transformers test the blank sentinel of their field's codec", 4)
+    chk.rule("C20-P4", "C03-T5: filled header values are kept; the final filter drops exactly the empty-list marker", 5)
+    header_sentinels(chk, repo, L)
